@@ -13,6 +13,37 @@ import (
 type val struct {
 	K  int32
 	ID int64
+	S  int64 // checksum over K and ID: a value mixed from two writes does not verify
+}
+
+func valSum(k int32, id int64) int64 { return id*0x9E3779B1 ^ int64(k)<<40 ^ 0x5bd1e995 }
+
+func mkVal(k int, id int64) val { return val{K: int32(k), ID: id, S: valSum(int32(k), id)} }
+
+func (v val) ok() bool { return v == (val{}) || v.S == valSum(v.K, v.ID) }
+
+// val2 carries the same information in another dynamic type (and layout): the
+// any-valued containers store values of both types under one key, so that a
+// reader which combines the type word of one write with the data word of
+// another obtains something that does not verify.
+type val2 struct {
+	ID int64
+	S  int64
+	K  int32
+}
+
+func encAny(v any) any {
+	if x, ok := v.(val); ok && x.ID&1 == 1 {
+		return val2{ID: x.ID, S: x.S, K: x.K}
+	}
+	return v
+}
+
+func decAny(v any) any {
+	if y, ok := v.(val2); ok {
+		return val{K: y.K, ID: y.ID, S: y.S}
+	}
+	return v
 }
 
 // skey is a struct key type with padding and a string field.
@@ -74,24 +105,41 @@ type mapAd struct {
 	ks *keyspace[string]
 }
 
-func (a *mapAd) Name() string                          { return "Map" }
-func (a *mapAd) Zero() any                             { return nil }
-func (a *mapAd) Raw() any                              { return a.m }
-func (a *mapAd) BucketOf(k int) int                    { return cache.VerifBucketIndex(a.m, a.ks.keys[k]) }
-func (a *mapAd) Load(k int) (any, bool)                { return a.m.Load(a.ks.keys[k]) }
-func (a *mapAd) Store(k int, v any)                    { a.m.Store(a.ks.keys[k], v) }
-func (a *mapAd) LoadOrStore(k int, v any) (any, bool)  { return a.m.LoadOrStore(a.ks.keys[k], v) }
-func (a *mapAd) LoadAndStore(k int, v any) (any, bool) { return a.m.LoadAndStore(a.ks.keys[k], v) }
+func (a *mapAd) Name() string       { return "Map" }
+func (a *mapAd) Zero() any          { return nil }
+func (a *mapAd) Raw() any           { return a.m }
+func (a *mapAd) BucketOf(k int) int { return cache.VerifBucketIndex(a.m, a.ks.keys[k]) }
+func (a *mapAd) Load(k int) (any, bool) {
+	v, ok := a.m.Load(a.ks.keys[k])
+	return decAny(v), ok
+}
+func (a *mapAd) Store(k int, v any) { a.m.Store(a.ks.keys[k], encAny(v)) }
+func (a *mapAd) LoadOrStore(k int, v any) (any, bool) {
+	r, ok := a.m.LoadOrStore(a.ks.keys[k], encAny(v))
+	return decAny(r), ok
+}
+func (a *mapAd) LoadAndStore(k int, v any) (any, bool) {
+	r, ok := a.m.LoadAndStore(a.ks.keys[k], encAny(v))
+	return decAny(r), ok
+}
 func (a *mapAd) LoadOrCompute(k int, fn func() any) (any, bool) {
-	return a.m.LoadOrCompute(a.ks.keys[k], func() interface{} { return fn() })
+	r, ok := a.m.LoadOrCompute(a.ks.keys[k], func() interface{} { return encAny(fn()) })
+	return decAny(r), ok
 }
 func (a *mapAd) Compute(k int, fn func(any, bool) (any, bool)) (any, bool) {
-	return a.m.Compute(a.ks.keys[k], func(o interface{}, l bool) (interface{}, bool) { return fn(o, l) })
+	r, ok := a.m.Compute(a.ks.keys[k], func(o interface{}, l bool) (interface{}, bool) {
+		n, d := fn(decAny(o), l)
+		return encAny(n), d
+	})
+	return decAny(r), ok
 }
-func (a *mapAd) LoadAndDelete(k int) (any, bool) { return a.m.LoadAndDelete(a.ks.keys[k]) }
-func (a *mapAd) Delete(k int)                    { a.m.Delete(a.ks.keys[k]) }
+func (a *mapAd) LoadAndDelete(k int) (any, bool) {
+	r, ok := a.m.LoadAndDelete(a.ks.keys[k])
+	return decAny(r), ok
+}
+func (a *mapAd) Delete(k int) { a.m.Delete(a.ks.keys[k]) }
 func (a *mapAd) Range(f func(int, any) bool) {
-	a.m.Range(func(k string, v interface{}) bool { return f(a.ks.index(k), v) })
+	a.m.Range(func(k string, v interface{}) bool { return f(a.ks.index(k), decAny(v)) })
 }
 func (a *mapAd) Clear()    { a.m.Clear() }
 func (a *mapAd) Size() int { return a.m.Size() }
@@ -149,8 +197,8 @@ func inVal(v any) val {
 	return v.(val)
 }
 func outVal(v val) any { return v }
-func inAny(v any) any  { return v }
-func outAny(v any) any { return v }
+func inAny(v any) any  { return encAny(v) }
+func outAny(v any) any { return decAny(v) }
 
 // mapSpec describes how to construct a map-like container.
 type mapSpec struct {
